@@ -1,5 +1,210 @@
-use crate::check::Violation;
+//! C36 — results are independent of the configured timezone where they should be (DESIGN 4.5).
+//! Knob: each node of a world gets its own `TimeZone` (incl. `Local` under a simulated TZ variable) and all
+//! nodes run the same (program, event); outcomes of zone-explicit programs must be identical across nodes.
+
+use std::collections::BTreeMap;
+
+use crate::batch::run_and_judge;
+use crate::check::*;
+use crate::corpus;
 use crate::driver::WorkerError;
+use crate::judge::prog_desc;
+use crate::prng::{fnv, mix, Rng};
+use crate::sched::Policy;
 use crate::spec::*;
+
 type Res = Result<SessionResult, WorkerError>;
-pub fn judge(_s: &SessionSpec, _r: &Res) -> Result<Vec<Violation>, String> { Ok(vec![]) }
+
+pub const ZONES: &[&str] = &[
+    "UTC", "Etc/GMT+12", "Etc/GMT-14", "Asia/Kolkata", "Asia/Kathmandu", "America/New_York", "Europe/Berlin",
+    "Australia/Lord_Howe", "America/Sao_Paulo", "Pacific/Apia",
+];
+
+/// Functions that are allowed to interpret zone-less wall-clock text with the configured timezone.
+pub const ALLOWED: &[&str] = &[
+    "parse_timestamp", "parse_syslog", "parse_linux_authorization", "parse_apache_log", "parse_common_log",
+    "parse_nginx_log", "get_timezone_name", "\"local\"",
+];
+
+/// pinned instants (unix seconds): mid-year, new year's eve, DST changeover days, leap day
+pub const CLOCKS: &[i64] = &[1_700_000_000, 1_703_980_799, 1_704_067_201, 1_615_705_199, 1_636_263_000, 1_709_164_800, 1_616_895_000];
+
+pub fn judge(session: &SessionSpec, res: &Res) -> Result<Vec<Violation>, String> {
+    let res = match res {
+        Ok(r) => r,
+        Err(e) => return Err(format!("worker failed: {e}")),
+    };
+    let mut out = vec![];
+    for (w, wr) in session.worlds.iter().zip(res.worlds.iter()) {
+        // control: nodes 0 and 1 run under the same zone; if they already disagree the program is not
+        // deterministic in the first place (a C14 matter) and nothing is said about timezones
+        let same_zone_control = w.nodes.len() >= 2 && w.nodes[0].tz == w.nodes[1].tz;
+        let mut unstable: std::collections::BTreeSet<(usize, usize)> = Default::default();
+        if same_zone_control {
+            for o in wr.obs.iter().filter(|o| o.node == 0) {
+                if let Some(p) = wr.obs.iter().find(|p| p.node == 1 && p.op == o.op) {
+                    if p.outcome != o.outcome {
+                        if let Some(Op::Run { prog, event, .. }) = w.nodes[0].ops.get(o.op) {
+                            unstable.insert((*prog, *event));
+                        }
+                    }
+                }
+            }
+        }
+        // (prog, event) -> first judged observation
+        let mut first: BTreeMap<(usize, usize), (&Obs, &str)> = BTreeMap::new();
+        for o in &wr.obs {
+            let Some(node) = w.nodes.get(o.node) else { continue };
+            let Some(Op::Run { prog, event, tag, .. }) = node.ops.get(o.op) else { continue };
+            if tag != "tz:judged" || o.kind != "run" || unstable.contains(&(*prog, *event)) {
+                continue;
+            }
+            match first.get(&(*prog, *event)) {
+                None => {
+                    first.insert((*prog, *event), (o, node.tz.as_str()));
+                }
+                Some((f, ftz)) => {
+                    if f.outcome != o.outcome {
+                        out.push(Violation {
+                            property: "C36".into(),
+                            class: "timezone-dependent-result".into(),
+                            at: format!("world {} node {} op {} (tz {}, TZ env {:?}, clock {:?})", w.id, o.node, o.op, node.tz, session.tz_env, w.clock),
+                            program: prog_desc(w, *prog),
+                            observed: o.outcome.clone(),
+                            expected: f.outcome.clone(),
+                            note: format!("expected = the same run under tz {ftz}; event {}", serde_json::to_string(&w.events[*event]).unwrap()),
+                        });
+                    }
+                }
+            }
+        }
+    }
+    Ok(out)
+}
+
+pub fn run(ctx: &Ctx) -> ! {
+    let mut ev = Evidence::default();
+    let mut rep = Reporter::new(ctx);
+    let mut cases = corpus::corpus_a();
+    cases.extend(corpus::corpus_b());
+    cases.extend(corpus::corpus_c());
+    // class (a): zone-explicit by construction = does not call an allowed function; class (b): hand-written probes
+    let mut judged = vec![];
+    let mut probes = vec![];
+    let mut excluded = 0u64;
+    for c in cases {
+        if !c.comparable() || c.diagnostics {
+            continue;
+        }
+        let explicit = c.tags.iter().any(|t| t == "tz-explicit");
+        let zoneless = c.tags.iter().any(|t| t == "tz-zoneless");
+        let calls_allowed = ALLOWED.iter().any(|f| c.program.source.contains(f));
+        if explicit || (!zoneless && !calls_allowed) {
+            judged.push(c);
+        } else {
+            if !zoneless {
+                excluded += 1;
+            }
+            probes.push(c);
+        }
+    }
+    ev.extra.insert("programs_judged".into(), (judged.len() as u64).into());
+    ev.extra.insert("programs_calling_allowed_zone_consumers_not_judged".into(), excluded.into());
+    ev.extra.insert("zoneless_probes".into(), ((probes.len() as u64) - excluded).into());
+
+    let mut rng = Rng::new(mix(ctx.seed, 0xC36));
+    let rounds = if ctx.quick() { 3 } else { 40 };
+    let mut tz_changed = 0u64;
+    let mut samples = vec![];
+    for round in 0..rounds {
+        if ctx.out_of_time() {
+            break;
+        }
+        // one session per TZ-environment value; worlds inside share it
+        let mut sessions = vec![];
+        let n_sessions = 16;
+        let all: Vec<(&corpus::Case, bool)> = judged.iter().map(|c| (c, true)).chain(probes.iter().map(|c| (c, false))).collect();
+        let per = all.len().div_ceil(n_sessions);
+        for (si, chunk) in all.chunks(per).enumerate() {
+            let tz_env = ZONES[rng.below(ZONES.len())].to_string();
+            let mut worlds = vec![];
+            for (ci, (c, is_judged)) in chunk.iter().enumerate() {
+                let n_nodes = rng.range(2, if ctx.quick() { 4 } else { 6 });
+                let mut zones: Vec<String> = vec![];
+                while zones.len() < n_nodes {
+                    let z = if rng.chance(0.25) { "Local".to_string() } else { ZONES[rng.below(ZONES.len())].to_string() };
+                    if !zones.contains(&z) {
+                        zones.push(z);
+                    }
+                }
+                // same-zone control pair in front (see judge)
+                zones.insert(0, zones[0].clone());
+                let events: Vec<EventSpec> = std::iter::once(c.event.clone()).chain(c.extra_events.iter().cloned()).collect();
+                let nodes = zones
+                    .iter()
+                    .map(|z| NodeSpec {
+                        tz: z.clone(),
+                        hash_seed: 1,
+                        own_clone: false,
+                        ref_backing: false,
+                        ops: (0..events.len()).map(|e| Op::Run { prog: 0, event: e, fresh_runtime: true, faults: FaultPlan::default(), tag: if *is_judged { "tz:judged".into() } else { "tz:probe".into() } }).collect(),
+                    })
+                    .collect();
+                worlds.push(WorldSpec {
+                    id: format!("tz{round}s{si}w{ci}"),
+                    clock: Some(CLOCKS[rng.below(CLOCKS.len())]),
+                    coord_hash_seed: 1,
+                    programs: vec![c.program.clone()],
+                    events,
+                    nodes,
+                    sched: SchedSpec { policy: Policy::Random { p: 0.1 }, seed: rng.next_u64(), max_yields: 100_000 },
+                    files: vec![],
+                    monitors: vec![],
+                    // fresh threads with equal hash seeds: all nodes see the same hash iteration orders
+                    fresh_threads: true,
+                });
+            }
+            sessions.push(SessionSpec { seed: ctx.seed, tz_env: Some(tz_env), layout_salt: 0, worlds });
+        }
+        let results = run_and_judge(ctx, "c36", &sessions, &mut rep, &mut ev, true);
+        for (s, r) in sessions.iter().zip(results.iter()) {
+            let Some(r) = r else { continue };
+            for (w, wr) in s.worlds.iter().zip(r.worlds.iter()) {
+                ev.evaluations += 1;
+                let is_judged = matches!(w.nodes[0].ops.first(), Some(Op::Run { tag, .. }) if tag == "tz:judged");
+                let outcomes: std::collections::BTreeSet<&str> = wr.obs.iter().filter(|o| o.kind == "run" && o.op == 0).map(|o| o.outcome.as_str()).collect();
+                if !is_judged && outcomes.len() > 1 {
+                    tz_changed += 1;
+                }
+                if wr.obs.iter().filter(|o| o.node == 0).any(|o| wr.obs.iter().any(|p| p.node == 1 && p.op == o.op && p.outcome != o.outcome)) {
+                    *ev.probes.entry("worlds_unstable_under_equal_zones_not_judged".into()).or_insert(0) += 1;
+                }
+                let src = &w.programs[0].source;
+                let timeish = ["timestamp", "t'", "time", "date", "syslog", "_log", "now"].iter().any(|k| src.contains(k));
+                if is_judged && timeish && !wr.obs.iter().any(|o| o.outcome.starts_with("NOPROGRAM")) {
+                    let mut zs: Vec<&str> = w.nodes.iter().map(|n| n.tz.as_str()).collect();
+                    zs.sort_unstable();
+                    let key = format!("{src}|{zs:?}|{:?}", s.tz_env);
+                    let fresh = ev.distinct.insert(fnv(key.as_bytes()));
+                    if fresh && samples.len() < 3 && ev.distinct.len() % 37 == 1 {
+                        samples.push(serde_json::json!({"program": src, "zones": zs, "TZ_env": s.tz_env, "clock": w.clock, "outcome_under_all_zones": wr.obs.first().map(|o| o.outcome.clone())}));
+                    }
+                }
+            }
+        }
+    }
+    ev.probes.insert("tz_changed_result".into(), tz_changed);
+    ev.samples = samples;
+    ev.rule = "evaluations = worlds; in each world 2-6 nodes run the same (program, event) under different configured timezones (UTC, fixed offsets, DST zones, Local with a simulated TZ environment variable per session), pinned clock drawn from an edge list. Judged: every corpus program that does not call a function allowed to interpret zone-less wall-clock text (parse_timestamp, parse_syslog, parse_linux_authorization, parse_apache_log, parse_common_log, parse_nginx_log, get_timezone_name, format_timestamp with \"local\") or a C14-exempt function, plus hand-written probes of exactly those functions where the zone is explicit in the data or the call. Outcomes must be identical across nodes. Zone-less probes are run but not judged; they feed the sanity probe tz_changed_result (> 0 shows the knob reaches the code). distinct_nontrivial = distinct (program, zone set, TZ env) triples of judged programs whose source deals with time (mentions timestamp/time/date/log parsing).".into();
+    ev.assumptions = vec![
+        "the rule is behavioural: a new, undeclared consumer of the configured timezone shows up as a differing outcome in a program outside the allowed set".into(),
+        "%Z carries no offset and %s no zone in chrono: such probes are run but only counted".into(),
+    ];
+    let mut verdict = rep.finish(ctx);
+    if tz_changed == 0 {
+        eprintln!("HARNESS: sanity probe tz_changed_result is 0: the timezone knob does not reach the code");
+        verdict.harness_errors += 1;
+    }
+    ev.write(ctx, "exploration", verdict.violations, &verdict.known_seen);
+    exit_with(&verdict)
+}
